@@ -116,6 +116,13 @@ def ser_problems(r):
                 want = None
             if want is not None and not _same(params[name], want):
                 out.append(("C07:ser:parameters:wrong-value", "%s: %r reported %r, passed %r" % (kind, name, params[name], val)))
+        resolved = {name for name, _, _ in e["params"]}
+        # (only for a node that ran: one rejected at its input gate reports what it would have been given)
+        for name in sorted(set(params) | set(srcs)) if e["exc"] is None else []:
+            if name not in resolved:
+                out.append(("C07:ser:parameters:reported-but-never-resolved-by-the-node",
+                            "%s: SER reports parameter %r (value %r, source %r) which the node never resolved or passed"
+                            % (kind, name, params.get(name), srcs.get(name))))
         # checks
         asr = s.get("assertions", {})
         pre_c = {c.get("code"): c for c in asr.get("preconditions", [])}
